@@ -356,6 +356,103 @@ impl Space for RoundTrip {
 }
 
 // ----------------------------------------------------------------------
+// cone parameters: every exponent (vector) of a grid, in particular those whose floating-point
+// sum is 1 +- a few ulp (accepted by the constructor, so they must survive the round trip)
+// ----------------------------------------------------------------------
+pub struct ConeParams;
+impl ConeParams {
+    fn cones() -> Vec<ConeSpec> {
+        let mut v = vec![];
+        for k in 1..=19 {
+            v.push(ConeSpec::Pow(k as f64 / 20.0));
+        }
+        for a in [1e-3, 1.0 - 1e-3, 1.0 / 3.0, 1e-8] {
+            v.push(ConeSpec::Pow(a));
+        }
+        // normalised integer ratios: pairs, triples, quadruples
+        for i in 1..=7u32 {
+            for j in 1..=7u32 {
+                let t = (i + j) as f64;
+                v.push(ConeSpec::GenPow(vec![i as f64 / t, j as f64 / t], 1));
+            }
+        }
+        for i in 1..=6u32 {
+            for j in 1..=6u32 {
+                for k in 1..=6u32 {
+                    let t = (i + j + k) as f64;
+                    v.push(ConeSpec::GenPow(vec![i as f64 / t, j as f64 / t, k as f64 / t], 2));
+                }
+            }
+        }
+        for id in 0..81u32 {
+            let w: Vec<f64> = (0..4).map(|d| 1.0 + ((id / 3u32.pow(d)) % 3) as f64).collect();
+            let t: f64 = w.iter().sum();
+            v.push(ConeSpec::GenPow(w.iter().map(|x| x / t).collect(), 1));
+        }
+        // every two-decimal triple a + b + c = 1 (as literals: each entry is rounded separately, so the
+        // floating-point sum is 1, 1 - ulp/2 or 1 + ulp depending on the triple)
+        for i in 1..=98u32 {
+            for j in 1..=(99 - i) {
+                let k = 100 - i - j;
+                v.push(ConeSpec::GenPow(vec![i as f64 / 100.0, j as f64 / 100.0, k as f64 / 100.0], 1));
+            }
+        }
+        // decimal literals as a user would type them
+        for a in [vec![0.34, 0.56, 0.1], vec![0.1, 0.2, 0.7], vec![0.3, 0.3, 0.4], vec![0.15, 0.35, 0.5], vec![0.6, 0.3, 0.1], vec![0.1, 0.9], vec![0.35, 0.65], vec![1.0]] {
+            v.push(ConeSpec::GenPow(a, 2));
+        }
+        v
+    }
+}
+impl Space for ConeParams {
+    fn name(&self) -> String {
+        "roundtrip-cone-parameters".into()
+    }
+    fn size(&self) -> u64 {
+        Self::cones().len() as u64 * 2
+    }
+    fn describe(&self, id: u64) -> Value {
+        json!({"cone": Self::cones()[(id / 2) as usize].tag(), "equilibrate": id % 2 == 0})
+    }
+    fn bound(&self) -> Value {
+        json!({"power_exponents": "k/20, 1e-3, 1-1e-3, 1/3, 1e-8", "genpow_exponents": "all normalised integer ratios: pairs 1..7, triples 1..6, quadruples 1..3; all two-decimal triples summing to 1; decimal literals"})
+    }
+    fn run(&self, id: u64, ctx: &mut Ctx) -> CaseResult {
+        let cone = Self::cones()[(id / 2) as usize].clone();
+        let n = 2;
+        let p = planted(&[cone.clone(), ConeSpec::NN(1)], n, 5, 0, 0, 1, &Dense::eye(n), false);
+        let mut st = DefaultSettings::<f64>::default();
+        st.verbose = false;
+        st.equilibrate_enable = id % 2 == 0;
+        // a parameter the constructor itself rejects is not a well-formed problem
+        let Ok(mut solver) = guarded(|| p.build(st.clone())) else {
+            ctx.outcome("rejected-by-constructor(skipped)");
+            return Ok(());
+        };
+        let bytes = save_bytes(&solver).map_err(|e| Violation::new("save-failed", e))?;
+        let mut loaded = match load_bytes(&bytes, None) {
+            Err(panic) => return Err(Violation::new("load-of-valid-file-panicked", panic)),
+            Ok(Err(e)) => return Err(Violation::new("load-of-valid-file-failed", format!("{} for cone {}", e, cone.tag()))),
+            Ok(Ok(s)) => s,
+        };
+        ctx.transitions += 2;
+        ensure!(loaded.data.cones == solver.data.cones, "cones-differ-after-round-trip", "{:?} vs {:?}", loaded.data.cones, solver.data.cones);
+        guarded(|| solver.solve()).map_err(|e| Violation::new("machinery-solve-panic", e))?;
+        guarded(|| loaded.solve()).map_err(|e| Violation::new("loaded-solver-panicked", e))?;
+        let (a, b) = (&solver.solution, &loaded.solution);
+        ensure!(a.status == b.status, "verdict-differs-after-round-trip", "original {:?} loaded {:?}", a.status, b.status);
+        if !st.equilibrate_enable {
+            ensure!(a.obj_val.to_bits() == b.obj_val.to_bits() && a.iterations == b.iterations, "exact-round-trip-not-exact", "{} vs {}", a.obj_val, b.obj_val);
+        } else if a.status == SolverStatus::Solved {
+            ensure!((a.obj_val - b.obj_val).abs() <= 1e-6 * f64::max(1.0, a.obj_val.abs()), "objective-differs-after-round-trip", "{} vs {}", a.obj_val, b.obj_val);
+        }
+        ctx.nontrivial += 1;
+        ctx.outcome(&format!("roundtrip-{}", status_name(a.status)));
+        Ok(())
+    }
+}
+
+// ----------------------------------------------------------------------
 // faults
 // ----------------------------------------------------------------------
 const MENU: &[u8] = b"\"{}[],:09-e.x 1";
@@ -476,7 +573,7 @@ pub const ASSUMPTIONS: &[&str] = &[
 
 pub fn spaces(tier: &str, _seed: u64) -> Vec<Box<dyn Space>> {
     let thorough = tier == "thorough";
-    let mut v: Vec<Box<dyn Space>> = vec![Box::new(RoundTrip { pairs: false })];
+    let mut v: Vec<Box<dyn Space>> = vec![Box::new(RoundTrip { pairs: false }), Box::new(ConeParams)];
     if thorough {
         v.push(Box::new(RoundTrip { pairs: true }));
     }
